@@ -16,7 +16,7 @@ Search: on the implementation alone — Verify(Sign) == OK, signature == the sta
 import os, sys, importlib
 import vcommon
 
-PROPS = ["Bee2V/C02/Props.lean", "Bee2V/C02/PropsKeyt.lean", "Bee2V/C02/PropsIbs.lean", "Bee2V/C02/Toy.lean"]
+PROPS = ["Bee2V/C02/Props.lean", "Bee2V/C02/PropsKeyt.lean", "Bee2V/C02/PropsIbs.lean", "Bee2V/C02/PropsBelt.lean", "Bee2V/C02/Toy.lean"]
 TARGETS = [p[:-5].replace("/", ".") for p in PROPS]
 CORPUS = os.path.join(vcommon.VERIF, "gen", "c02_corpus.txt")
 OK, BAD_INPUT, BAD_OID, BAD_RNG, BAD_PARAMS, BAD_PRIVKEY, BAD_PUBKEY, BAD_SHAREDKEY, BAD_SIG, BAD_KEYTOKEN = \
@@ -258,6 +258,13 @@ class Gen:
                     key = self.rb(kl)
                     add("wrap %d %s %s %s %s" % (ci, hx(key), hdr, hx(Q), hx(t)), kind="wrap", cv=cv, d=d, Q=Q, key=key, hdr=hdr)
                     self.count("wrap:hdr=" + ("null" if hdr == "N" else "zero" if hdr == hx(bytes(16)) else "nonzero"))
+            sparse = [flip(bytes(16), self.rng.randrange(8)), flip(bytes(16), 120 + self.rng.randrange(8)), flip(bytes(16), self.rng.randrange(128)),
+                      bytes(8) + self.rb(8), self.rb(8) + bytes(8)]
+            for i, h in enumerate(sparse if (self.thorough or ci == 0) else [sparse[self.rng.randrange(5)]]):
+                d, Q = cv.keys[i % len(cv.keys)]
+                key = self.rb(16 + i)
+                add("wrap %d %s %s %s %s" % (ci, hx(key), hx(h), hx(Q), hx(tapes[i % len(tapes)][1])), kind="wrap", cv=cv, d=d, Q=Q, key=key, hdr=hx(h), sparse=True)
+                self.count("wrap:hdr=sparse")
             for lab, Qb in self.pubs(cv, Q0)[1:]:
                 add("wrap %d %s N %s %s" % (ci, hx(self.rb(16)), hx(Qb), hx(tapes[0][1])), kind="wrapbad", cv=cv, expect=BAD_PUBKEY)
             add("wrap %d %s N %s %s" % (ci, hx(self.rb(15)), hx(flip(Q0, 9)), "-"), kind="wrapbad", cv=cv, expect=BAD_INPUT)
@@ -398,6 +405,10 @@ class Gen:
 
         u(tok, hdr, d, "genuine")
         z = hx(bytes(16))
+        if m.get("sparse"):
+            u(tok, "N", d, "hdr:null-for-nonzero")
+            u(tok, z, d, "hdr:zero-for-nonzero")
+            return
         if hdr == "N":
             u(tok, z, d, "null-vs-zero")                      # NULL header == zero header: must be accepted
         elif hdr == z:
@@ -506,7 +517,7 @@ class Gen:
                 for lab, Rb in self.pubs(cv, R)[1:]:
                     v(oid, idH, H, isig, Rb, Q, "idpub:" + lab)
                 v(oid, idH, H, isig, Q, R, "swapped-keys")
-                v(OID_GOOD[1], idH, H, isig, R, Q, "oid:other")
+                v([o for o in OID_GOOD if o != oid][0], idH, H, isig, R, Q, "oid:other")
                 v(OID_BAD[4], idH, H, isig, R, Q, "oid:invalid")
             # the extraction itself under alterations
             sig = m["sig"]
